@@ -1492,6 +1492,20 @@ func (c *Conn) ApiVersions() ([]ApiVersion, error) {
 	}
 	defer lock.Unlock()
 
+	r, err := c.readApiVersionsResponse(size)
+	if err != nil {
+		var kafkaError Error
+		if !errors.As(err, &kafkaError) {
+			// The response was not read entirely, the connection cannot be
+			// used for another exchange (same rule as in Conn.do).
+			c.conn.Close()
+		}
+	}
+	return r, err
+}
+
+func (c *Conn) readApiVersionsResponse(size int) ([]ApiVersion, error) {
+	var err error
 	var errorCode int16
 	if size, err = readInt16(&c.rbuf, size, &errorCode); err != nil {
 		return nil, err
@@ -1499,6 +1513,10 @@ func (c *Conn) ApiVersions() ([]ApiVersion, error) {
 	var arrSize int32
 	if size, err = readInt32(&c.rbuf, size, &arrSize); err != nil {
 		return nil, err
+	}
+	if arrSize < 0 || int(arrSize) > size/6 {
+		// each entry takes 6 bytes
+		return nil, fmt.Errorf("invalid number of api versions (%d) in a response of %d bytes: %w", arrSize, size, errShortRead)
 	}
 	r := make([]ApiVersion, arrSize)
 	for i := 0; i < int(arrSize); i++ {
@@ -1509,6 +1527,13 @@ func (c *Conn) ApiVersions() ([]ApiVersion, error) {
 			return nil, err
 		}
 		if size, err = readInt16(&c.rbuf, size, &r[i].MaxVersion); err != nil {
+			return nil, err
+		}
+	}
+	if size != 0 {
+		// newer versions of the response carry more fields, skip them so the
+		// next response is read from its beginning.
+		if _, err = discardN(&c.rbuf, size, size); err != nil {
 			return nil, err
 		}
 	}
